@@ -201,3 +201,88 @@ def contracts():
     for L in G.LAYOUTS:
         out += [transition_contract(L), composition_contract(L)]
     return out
+
+
+# --------------------------------------------------------------------------------------
+# initial random variable of the prior constructors (C02: exact / inexact / diffuse initial conditions)
+# --------------------------------------------------------------------------------------
+
+
+def prior_init_contract(L, mode):
+    """mode in {'exact', 'inexact', 'flags', 'diffuse'}: the initial random variable is N(tcoeffs, diag(std^2)) with
+    std = 0 (exact), inexact_eps (inexact), per-entry 0 / inexact_eps (boolean flags), and diffuse_eps for the
+    coefficients added by diffuse_derivatives (whose means are zero); the base scale defaults to one."""
+    mod = "probdiffeq.probdiffeq"
+    fac = {DenseL: "state_space_model_dense", IsoL: "state_space_model_isotropic", BlockL: "state_space_model_blockdiag"}[L]
+
+    def flags_for(n, d):
+        if L is IsoL:
+            return [jnp.asarray(i % 2 == 0) for i in range(n)]  # one flag per coefficient
+        return [jnp.asarray([(i + j) % 2 == 0 for j in range(d)]) for i in range(n)]
+
+    def wrap(target):
+        def f(tcoeffs, eps, deps, *, n, d, k):
+            ssm = target()
+            kw = dict(inexact_eps=eps, diffuse_derivatives=k, diffuse_eps=deps)
+            if mode == "exact":
+                kw["is_exact"] = True
+            elif mode in ("inexact", "diffuse"):
+                kw["is_exact"] = False
+            else:
+                kw["is_exact"] = flags_for(n, d)
+            prior = ssm.prior_wiener_integrated(list(tcoeffs), **kw)
+            return prior.init.mean_flat, cov(L, prior.init), prior.output_scale
+
+        return f
+
+    def ensures(res, tcoeffs, eps, deps, *, n, d, k):
+        from . import ivp
+
+        mean, C, base = res
+        N = n + k
+        cs = ivp.coeffs(L, mean, N, d)
+        cl = []
+        for i in range(n):
+            cl.append(eq(f"mean_of_given_coefficient_{i}", cs[i], tcoeffs[i]))
+        for i in range(n, N):
+            cl.append(eq(f"mean_of_added_coefficient_{i}_is_zero", cs[i], 0.0))
+        # expected variances per coefficient (and per dimension where the layout has them)
+        var = []
+        for i in range(N):
+            if i >= n:
+                v = jnp.ones((d,)) * deps * deps
+            elif mode == "exact":
+                v = jnp.zeros((d,))
+            elif mode in ("inexact", "diffuse"):
+                v = jnp.ones((d,)) * eps * eps
+            else:
+                fl = flags_for(n, d)[i]
+                v = jnp.where(jnp.broadcast_to(fl, (d,)), 0.0, eps * eps)
+            var.append(v)
+        var = jnp.stack(var)  # (N, d)
+        if L is DenseL:
+            expected = jnp.diag(var.reshape(-1))
+        elif L is IsoL:
+            expected = jnp.diag(var[:, 0])
+        else:
+            expected = jax.vmap(jnp.diag)(var.T)
+        cl.append(eq("initial_covariance_is_diag_of_squared_stds", C, expected))
+        # the dense model stores the base scale as the diagonal matrix Lambda
+        cl.append(eq("default_base_scale_is_one", base, jnp.eye(d) if L is DenseL else 1.0))
+        return cl
+
+    def instances(tier):
+        out = []
+        fam = [(2, 2, 1 if mode == "diffuse" else 0)] + ([(1, 2, 2 if mode == "diffuse" else 0), (3, 1, 1 if mode == "diffuse" else 0)] if tier == "thorough" else [])
+        for n, d, k in fam:
+            def make(rng, n=n, d=d, k=k):
+                return (tuple(jnp.asarray(rng.normal(size=(d,))) for _ in range(n)), jnp.asarray(rng.uniform(0.01, 0.1)), jnp.asarray(rng.uniform(1.0, 3.0))), {"n": n, "d": d, "k": k}
+            out.append(Instance(f"n={n},d={d},diffuse={k}", make, positive=lambda a, kw: [a[1], a[2]], names=lambda a, kw: {id(a[1]): "inexact_eps", id(a[2]): "diffuse_eps"}))
+        return out
+
+    return Contract(name=f"{mod}:{fac}.prior_wiener_integrated[init,{mode}]", module=mod, qualname=fac, wrap=wrap, ensures=ensures, instances=instances,
+                    doc="initial random variable of the prior: given means, zero means for added coefficients, diagonal covariance with the documented standard deviations")
+
+
+def init_contracts():
+    return [prior_init_contract(L, mode) for L in (DenseL, IsoL, BlockL) for mode in ("exact", "inexact", "flags", "diffuse")]
